@@ -7,6 +7,7 @@ import (
 	"encoding/json"
 	"errors"
 	"fmt"
+	"math"
 	"net/http"
 	"strconv"
 	"strings"
@@ -258,7 +259,10 @@ func parseNumber(s string) (any, bool) {
 		return z, true
 	}
 	v, err := strconv.ParseFloat(s, 64)
-	if err == nil {
+	if err == nil && !math.IsInf(v, 0) && !math.IsNaN(v) {
+		// N.B. ParseFloat accepts "inf", "infinity", and "nan" in any case.
+		// Those are not numbers JSON can represent, so a parameter of that
+		// type would make the whole request unmarshalable. Treat them as text.
 		return v, true
 	}
 	return nil, false
